@@ -404,6 +404,7 @@ var c15RecW io.Writer = c15Rec
 // run
 
 func c15Run(c c15Case) *vlib.Failure {
+	defer vlib.Guard("C15", c, nil)()
 	for i := range c.Args {
 		c.Args[i] = c.Args[i].normalise()
 	}
@@ -753,6 +754,7 @@ type c15Raw struct {
 }
 
 func c15RunRaw(c c15Raw) *vlib.Failure {
+	defer vlib.Guard("C15", c, nil)()
 	boxed := make([]interface{}, len(c.Args))
 	for i, a := range c.Args {
 		boxed[i] = a.normalise().box()
